@@ -125,7 +125,7 @@ Qed.
 
 Lemma item_b_eq rest a : nl_item_b cfloat rest a = nl_item cfloat rest a.
 Proof.
-  unfold nl_item_b. destruct (nl_scanformat rest) as [[[form conv] rest']| |] eqn:S;
+  unfold nl_item_b, nl_item_b_pol. fold nl_site_bound. destruct (nl_scanformat rest) as [[[form conv] rest']| |] eqn:S;
     [|unfold nl_item; rewrite S; reflexivity|unfold nl_item; rewrite S; reflexivity].
   destruct (nl_item cfloat rest a) as [[b r']| |] eqn:E; try reflexivity.
   assert (Hfit : match nl_site_bound conv form a with None => True | Some n => slen b < n end).
@@ -145,14 +145,14 @@ Proof.
     destruct (c99_snprintf cfloat _ (AInt v)) as [b0|] eqn:Eo; [|discriminate Ec]. inversion Ec. subst b0 r'.
     destruct (checked_parse _ _ _ _ flags prec ll S Ha Hl Sub K' Hll) as (sp & Ep & Hw & Hp).
     pose proof (snprintf_len _ sp (AInt v) b Ep Hw Hp Eo) as L. cbn iota in L.
-    unfold nl_site_bound. destruct (Z.eqb_spec c 115); [contradiction|]. exact L. }
+    unfold nl_site_bound, nl_site_bound_pol. destruct (Z.eqb_spec c 115); [contradiction|]. exact L. }
   (* the %s site: the buffer prepared for it *)
   assert (Hstr : forall s, conv = 115 ->
             (if Nat.eqb (length form) 2 then Val (s, rest') else if has_zero s then Trap
              else match c99_snprintf cfloat form (AStr s) with Some b0 => Val (b0, rest') | None => @Unsafe (bytes * bytes) end) = Val (b, r') ->
             (s = match a with AStr s0 => s0 | AInt v => decimal_of v end) ->
             match nl_site_bound 115 form a with None => True | Some n => slen b < n end).
-  { intros s -> Ec Es. unfold nl_site_bound. cbn [Z.eqb Pos.eqb]. destruct (Nat.eqb (length form) 2); [exact I|].
+  { intros s -> Ec Es. unfold nl_site_bound, nl_site_bound_pol. cbn [Z.eqb Pos.eqb]. destruct (Nat.eqb (length form) 2); [exact I|].
     destruct (has_zero s); [discriminate Ec|].
     destruct (c99_snprintf cfloat form (AStr s)) as [b0|] eqn:Eo; [|discriminate Ec]. inversion Ec. subst b0 r'.
     revert K. fmt_red. intros K.
@@ -213,4 +213,16 @@ Qed.
    format of the unbounded model *)
 Theorem format_never_truncated fmt args : nl_format_b cfloat fmt args = nl_format cfloat fmt args.
 Proof. apply format_loop_b_eq. Qed.
+
+(* the %s site NEEDS the size of the buffer prepared for it: were it given MAX_ITEM (the other scraped policy; the seeded
+   change C13-D), string.format('%5s', <600 bytes>) would commit bytes snprintf never wrote - outcome Unsafe - where the
+   unbounded item is the 600 bytes *)
+Lemma format_s_bound_needed :
+  nl_item_b_pol cfloat false true [53; 115] (AStr (repeat 120 600)) = Unsafe /\
+  nl_item_b_pol cfloat true true [53; 115] (AStr (repeat 120 600)) = Val (repeat 120 600, []).
+Proof. split; vm_compute; reflexivity. Qed.
+
+(* likewise the numeric sites need a bound at all: with none every item is cut *)
+Lemma format_num_bound_needed : nl_item_b_pol cfloat true false [100] (AInt 7) = Trap.
+Proof. vm_compute. reflexivity. Qed.
 End Bound.
